@@ -369,4 +369,37 @@ def quiescent (w : WSt) : List Viol :=
        ∧ w.txGoaway.isNone ∧ (match w.rxGoaway with | some last => decide (s.id ≤ last) | none => true) = true
     then some s!"C17 no-RST_STREAM-for-reset-stream-{s.id}" else none)
 
+/-- C03 / C02, the wire against the endpoint's own books: at a point where the endpoint has read everything the
+    peer sent and everything it wrote has been seen, the connection receive window *as the peer can compute it
+    from the frames* (65 535 + WINDOW_UPDATEs we sent − flow-controlled octets of every DATA frame we were sent,
+    padding included) equals the window the endpoint believes the peer has (`Recv.flow.window_size`); a frame whose
+    octets the endpoint forgot to charge, or charged twice, shows here and nowhere else (the endpoint's own ledger
+    stays consistent with itself).  Likewise the connection send window. -/
+def quiescentWindows (w : WSt) (recvWindow sendWindow : Int) : List Viol :=
+  (if w.connRecvAdvert ≠ recvWindow then
+    [s!"C03 connection-receive-window-on-the-wire({w.connRecvAdvert})-differs-from-the-endpoints-account({recvWindow})"] else []) ++
+  (if w.connSendCredit ≠ sendWindow then
+    [s!"C02 connection-send-window-on-the-wire({w.connSendCredit})-differs-from-the-endpoints-account({sendWindow})"] else [])
+
+/-- the same for one stream that is still live both on the wire and in the endpoint's store (no reset either
+    way): receive window while the peer may still send (no END_STREAM from it yet), send window while we may. -/
+def quiescentStream (w : WSt) (sid : Nat) (recvWindow sendWindow : Int) (recvHandleLive : Bool) : List Viol :=
+  match w.get sid with
+  | none => []
+  | some s =>
+    if s.txRst > 0 ∨ s.rxRst ∨ w.txGoawayErr then []
+    else
+      -- (once the application has dropped its receive handle h2 stops keeping the stream's receive window:
+      --  noted finding F3, not judged here)
+      (if recvHandleLive ∧ ¬ s.rxEnd ∧ (s.rxHeaders > 0 ∨ s.txHeaders > 0) ∧ s.recvAdvert ≠ recvWindow then
+        [s!"C03 stream-receive-window-on-the-wire({s.recvAdvert})-differs-from-the-endpoints-account({recvWindow})"] else []) ++
+      (if ¬ s.txEnd ∧ (s.rxHeaders > 0 ∨ s.txHeaders > 0) ∧ s.sendCredit ≠ sendWindow then
+        [s!"C02 stream-send-window-on-the-wire({s.sendCredit})-differs-from-the-endpoints-account({sendWindow})"] else [])
+
+/-- C15: the connection future completed although the transport neither failed nor reached EOF: the endpoint
+    ended the connection of its own accord (shutdown, idle client, a fatal error of the peer) and has told the
+    peer so with a GOAWAY before — also when that GOAWAY had to wait behind a full write buffer. -/
+def endedByItself (w : WSt) (transportEvent : Bool) : List Viol :=
+  if !transportEvent ∧ w.txGoawayCount = 0 then ["C15 connection-ended-of-its-own-accord-without-a-GOAWAY"] else []
+
 end H2V.Spec.Wire
